@@ -314,6 +314,57 @@ theorem runTxE_fst (w : WState) (g : Ghost) (tx : List TOp) : (w.runTxE g tx).1 
   | none => rfl
   | some r => rfl
 
+/-! ### the solvency invariant holds at every position of a committed transaction -/
+
+theorem stepIn_sinv {tx : List TOp} {i : Nat} {t : TOp} {w w' : WState} (h : w.stepIn tx i t = some w') (hi : SInv w) (hok : t.Ok) : SInv w' := by
+  cases t with
+  | ix op =>
+    simp only [WState.stepIn] at h
+    have e : w' = (w.stepE op).1 := by rw [stepE_fst]; exact step?_some h
+    rw [e]
+    exact (stepE_sound w ⟨fun _ => 0, fun _ => 0, fun _ => 0⟩ op hi hok).1
+  | startFlash ai signer endIdx => exact (stepIn_acct_only (fun op => by simp) h hi).1
+  | endFlash ai signer => exact (stepIn_acct_only (fun op => by simp) h hi).1
+  | startLiq ai receiver recordOk => exact (stepIn_acct_only (fun op => by simp) h hi).1
+  | endLiq ai signer recordOk walletOk feeMax => exact (stepIn_acct_only (fun op => by simp) h hi).1
+  | startDelev ai signer recordOk => exact (stepIn_acct_only (fun op => by simp) h hi).1
+  | endDelev ai signer recordOk => exact (stepIn_acct_only (fun op => by simp) h hi).1
+
+/-- every instruction of a committed transaction was accepted on a reached state that satisfies the invariant -/
+theorem runFrom_at_sinv (tx : List TOp) : ∀ (rest : List TOp) (i : Nat) (w w' : WState), tx.drop i = rest →
+    WState.runFrom tx i rest w = some w' → SInv w → (∀ t ∈ rest, t.Ok) →
+    ∀ (j : Nat) (t : TOp), i ≤ j → tx[j]? = some t → ∃ (wj wj' : WState), SInv wj ∧ wj.stepIn tx j t = some wj' := by
+  intro rest
+  induction rest with
+  | nil =>
+    intro i w w' hd h hi _ j t hij hj
+    have hlen : tx.length ≤ i := by
+      rcases Nat.lt_or_ge i tx.length with h1 | h1
+      · have : (tx.drop i).length = tx.length - i := List.length_drop
+        rw [hd] at this; simp at this; omega
+      · exact h1
+    have : j < tx.length := by
+      rcases Nat.lt_or_ge j tx.length with h1 | h1
+      · exact h1
+      · rw [List.getElem?_eq_none h1] at hj; cases hj
+    omega
+  | cons op rest ih =>
+    intro i w w' hd h hi hok j t hij hj
+    obtain ⟨hti, hd'⟩ := drop_cons_facts hd
+    simp only [WState.runFrom] at h
+    split at h
+    · rename_i w1 h1
+      rcases Nat.lt_or_ge i j with hlt | hge
+      · exact ih (i + 1) w1 w' hd' h (stepIn_sinv h1 hi (hok op (List.mem_cons_self ..)))
+          (fun t ht => hok t (List.mem_cons_of_mem _ ht)) j t (by omega) hj
+      · have : j = i := by omega
+        subst this
+        rw [hti] at hj
+        injection hj with hj
+        subst hj
+        exact ⟨w, w1, hi, h1⟩
+    · cases h
+
 /-! ### the shape of every slot array runs through transactions too -/
 
 theorem setAcct_shape {w : WState} {ai : Nat} {a a' : AcctV} (hw : WShape w) (ha : w.accts[ai]? = some a) (hs : a'.slots = a.slots) :
